@@ -374,6 +374,47 @@ func (r *spaceRunner) meshFamily() {
 	}
 }
 
+// choiceMeshFamily: n types that are each a choice over all n types (with and
+// without a scalar way out), reached through a key shortcut, a type rule, an or list
+// (resolution of the actual type: linear since the fix recorded in known_findings) and
+// as a value (the recursion checker follows every path: factorial,
+// KF-C02-recursion-checker-factorial; its n=12 case is part of the thorough tier only,
+// the watchdog needs two minutes to stop it).
+func (r *spaceRunner) choiceMeshFamily() {
+	mk := func(root string, n int, withS bool) *project {
+		p := &project{Root: root, Types: map[string]string{"@s": `"s"`}}
+		var names []string
+		for i := 0; i < n; i++ {
+			names = append(names, fmt.Sprintf("@t%d", i))
+		}
+		if withS {
+			names = append(names, "@s")
+		}
+		for i := 0; i < n; i++ {
+			p.Types[fmt.Sprintf("@t%d", i)] = strings.Join(names, " | ")
+		}
+		return p
+	}
+	for _, withS := range []bool{false, true} {
+		for _, root := range []string{"{\n\t@t0: 1\n}", `"s" // {type: "@t0"}`, `"s" // {or: ["@t0", "@t1"]}`} {
+			for _, n := range []int{2, 6, 13, 40} {
+				r.projectCase("choice-mesh", mk(root, n, withS))
+				r.w.S.Nontrivial++
+			}
+		}
+		sizes := []int{2, 3, 6, 8}
+		if r.w.Thorough() {
+			sizes = append(sizes, 12)
+		}
+		for _, root := range []string{"@t0", "{\n\t\"k\": @t0\n}"} {
+			for _, n := range sizes {
+				r.projectCase("choice-mesh-value", mk(root, n, withS))
+				r.w.S.Nontrivial++
+			}
+		}
+	}
+}
+
 // graphFamily: <=3 mutually/self-referencing types, every subset registered.
 func (r *spaceRunner) graphFamily() {
 	w := r.w
@@ -548,6 +589,7 @@ func init() {
 			if w.Shard == 16 {
 				r.exponentGrid()
 				r.meshFamily()
+				r.choiceMeshFamily()
 				return
 			}
 			w.Of = 16
